@@ -6,7 +6,20 @@ SM = "wannierberri/smoother.py"
 ER = "wannierberri/result/energyresult.py"
 RG = "wannierberri/run_grid.py"
 W9 = "wannierberri/w90files/"
+DKR = "wannierberri/data_K/data_K_R.py"
+DKS = "wannierberri/data_K/data_K_soc.py"
+DKK = "wannierberri/data_K/data_K_k.py"
 MUTANTS = [
+    dict(prop="C33", name="soc: revert fix (parallel)", file=DKS, old="expdK_down = self.data_K_down.expdK_corners_parallel", new="expdK_down = self.data_K_up.expdK_corners_parallel"),
+    dict(prop="C33", name="soc: down block uses up Ham_R", file=DKS, old="_Ham_R = self.data_K_down.Ham_R[:, :, :] * expdK_down[iv][:, None, None]", new="_Ham_R = self.data_K_up.Ham_R[:, :, :] * expdK_down[iv][:, None, None]"),
+    dict(prop="C33", name="soc: down block placed at [::2,1::2]", file=DKS, old="                    _HH_K_full[:, 1::2, 1::2] = self.data_K_down.rvec.R_to_k(_Ham_R, hermitian=True)", new="                    _HH_K_full[:, 1::2, ::2] = self.data_K_down.rvec.R_to_k(_Ham_R, hermitian=True)"),
+    dict(prop="C33", name="soc: SOC term without corner phase", file=DKS, old="                _Ham_R = self.get_R_mat('soc') * expdK[iv][:, None, None]", new="                _Ham_R = self.get_R_mat('soc') * 1"),
+    dict(prop="C33", name="R: corner phases swapped (1/expdK second)", file=DKR, old="return np.array([1. / expdK, expdK])", new="return np.array([expdK, 1. / expdK])"),
+    dict(prop="C33", name="R: dK2 = dK (not half)", file=DKR, old="dK2 = self.Kpoint.dK_fullBZ / 2", new="dK2 = self.Kpoint.dK_fullBZ"),
+    dict(prop="C33", name="R: y component uses x phase", file=DKR, old="_expdK = expdK[ix, :, 0] * expdK[iy, :, 1] * expdK[iz, :, 2]", new="_expdK = expdK[ix, :, 0] * expdK[iy, :, 0] * expdK[iz, :, 2]"),
+    dict(prop="C33", name="R tetra: vertices not transposed right", file=DKR, old="return np.exp(2j * np.pi * self.rvec.iRvec.dot(vertices.T)).T", new="return np.exp(-2j * np.pi * self.rvec.iRvec.dot(vertices.T)).T"),
+    dict(prop="C33", name="kp: corner offset ix-1", file=DKK, old="v = (np.array([ix, iy, iz]) - 0.5) * dK", new="v = (np.array([ix, iy, iz]) - 1) * dK"),
+    dict(prop="C33", name="PRESERVING: kp offset written as 2i-1 over 2", file=DKK, old="v = (np.array([ix, iy, iz]) - 0.5) * dK", new="v = (2 * np.array([ix, iy, iz]) - 1) * dK / 2", expect="ok"),
     dict(prop="C19", name="eig: revert fix", file=W9 + "eig.py", old="{self.data[ik][ib]:17.12f}", new="{self.data[ik, ib]:17.12f}"),
     dict(prop="C19", name="eig: k and band columns swapped", file=W9 + "eig.py", old='f" {ib + 1:4d} {ik + 1:4d} ', new='f" {ik + 1:4d} {ib + 1:4d} '),
     dict(prop="C19", name="amn: loops w/b swapped in writer", file=W9 + "amn.py", old="""            for iw in range(self.NW):
